@@ -2,8 +2,9 @@
 # Run once after a fresh restore, offline.  Builds the Rust harness from /repo's working tree and
 # runs the oracle self-checks.  Everything else is pure Python run with /venv/bin/python.
 set -e
-cd "$(dirname "$0")"
-export PYTHONPATH="/verif:/verif/shims:${PI2_REPO:-/repo}/generation/src"
+HERE="$(cd "$(dirname "$0")" && pwd)"
+cd "$HERE"
+export PYTHONPATH="$HERE:$HERE/shims:${PI2_REPO:-/repo}/generation/src"
 export PYTHONDONTWRITEBYTECODE=1
 export CARGO_NET_OFFLINE=true
 mkdir -p .build evidence replays
